@@ -618,8 +618,9 @@ def switch_targets_bool(t):
     return None, None
 
 
-def field_writes(body, field, owner_suffix=None):
-    """assignments whose destination place ends in field `field`: list of (bb, stmt)"""
+def field_writes(body, field, owner_suffix=None, include_mut_borrows=False):
+    """assignments whose destination place ends in field `field`: list of (bb, stmt);
+    with include_mut_borrows also `&mut x.field` (a mutable borrow of the field may write it)"""
     out = []
     for bi, blk in enumerate(body.blocks):
         if blk['cleanup']:
@@ -628,6 +629,10 @@ def field_writes(body, field, owner_suffix=None):
             fs = [e for e in s['p'][1] if isinstance(e, list) and e[0] == 'F']
             if fs and fs[-1][2] == field and (owner_suffix is None or (len(fs[-1]) > 3 and fs[-1][3].endswith(owner_suffix))):
                 out.append((bi, s))
+            elif include_mut_borrows and s['rv']['k'] in ('ref', 'rawptr') and s['rv'].get('mut'):
+                fs = [e for e in s['rv']['p'][1] if isinstance(e, list) and e[0] == 'F']
+                if fs and fs[-1][2] == field and (owner_suffix is None or (len(fs[-1]) > 3 and fs[-1][3].endswith(owner_suffix))):
+                    out.append((bi, s))
     return out
 
 
